@@ -187,6 +187,10 @@ def run(ctx):
         param = simrun.hydro_param(layout, per, cells_per_subgrid=(2, 2, 2), total_time=0.002)
         env = {} if jitter is None else {"CMAC_VERIF_NOSERIAL": "1", "LD_PRELOAD": jlib, "CMAC_VERIF_JITTER10": jitter}
         res = simrun.run_sim(binary, param, ["--task-based-rhd", "--number-of-steps", "2" if jitter is None else "4"], threads=threads, timeout=60, env=env)
+        if res["timed_out"]:
+            # slow machine or endless step?  One more try with four times the limit decides.
+            ctx.branch("time-limit-retries")
+            res = simrun.run_sim(binary, param, ["--task-based-rhd", "--number-of-steps", "2" if jitter is None else "4"], threads=threads, timeout=240, env=env)
         ctx.count()
         ctx.distinct((layout, per, threads, jitter), nontrivial=(layout != (1, 1, 1) or any(per)))
         ctx.branch("serialised-trace-runs" if jitter is None else "non-serialised-jitter-runs")
@@ -194,7 +198,7 @@ def run(ctx):
                "cmd": ("" if jitter is None else "CMAC_VERIF_NOSERIAL=1 LD_PRELOAD=libc10_jitter.so CMAC_VERIF_JITTER10=%s " % jitter)
                       + "CMacIonize --params run.param --task-based-rhd --number-of-steps %d --threads %d" % (2 if jitter is None else 4, threads)}
         if res["timed_out"]:
-            ctx.violation("hydro:step-never-finishes", "the hydro step of layout %s periodicity %s did not finish within 60 s (threads=%d); last log line: %s"
+            ctx.violation("hydro:step-never-finishes", "the hydro step of layout %s periodicity %s did not finish within 60 s nor, tried again, within 240 s (threads=%d); last log line: %s"
                           % (layout, per, threads, res["log"].strip().split("\n")[-1][-200:]), rep)
             stop_serial = True   # every further layout with this defect would cost another timeout
             continue
